@@ -48,6 +48,8 @@ def h_blocksize(ctx, cmd):
         which = ctx.choose("blocksize-arg", ["omitted", "zero"])
         if which:
             fa["blocksize"] = 0
+        if ctx.choose("data-arg", ["omitted", "given"]):
+            fa["data"] = bytearray(b"\x00" * 16)
     st, r = ctx.attempt(getattr(s, spec["facade"]), **fa)
     _refused(ctx, st, r, dev, n0, "MissingBlocksizeException", "facade")
     cargs = dict(fa)
@@ -98,14 +100,16 @@ def h_opcode(ctx, cmd):
 
 def h_prin_sa(ctx, set_name):
     s, dev, n0 = _facade(set_name)
-    sa = ctx.int("service_action", 16)
-    ctx.assume(sa > 3)
+    sa = ctx.int("service_action", 13) - 4096   # -4096 .. 4095
+    ctx.assume((sa > 3) | (sa < 0))
     alloclen = ctx.int("alloclen", 16)
     st, r = ctx.attempt(s.persistentreservein, sa, alloclen=alloclen)
     _refused(ctx, st, r, dev, n0, "ValueError", "persistentreservein")
 
 
-_EXTRA_KEYS = ["bogus", "descriptor_typ_code", "pad", "lba", ""]
+# unknown names, misspellings, and names that are valid only in *other* descriptor kinds
+_EXTRA_KEYS = ["bogus", "descriptor_typ_code", "pad", "lba", "", "stream_device_transfer_length",
+               "block_device_logical_block_address", "disk_block_length", "designator"]
 
 
 def _xcopy(ctx, lid, targets, segments):
